@@ -174,6 +174,10 @@ pub fn run_dirsection(p: &DirPlan, seed: u64) -> DirOutcome {
                         let location = allocs.get(*from_alloc as usize).copied().unwrap_or(MDLocationDescriptor { data_size: 0, rva: 0 });
                         dir.write_to_file(&mut buffer, Some(MDRawDirectory { stream_type: *stream_type, location })).is_ok()
                     }
+                    DirOp::EntryOnly { stream_type, from_alloc } => {
+                        let location = allocs.get(*from_alloc as usize).copied().unwrap_or(MDLocationDescriptor { data_size: 0, rva: 0 });
+                        dir.dump_dir_entry(&mut buffer, MDRawDirectory { stream_type: *stream_type, location }).is_ok()
+                    }
                 };
                 steps.push(DirStep { image_len: buffer.len() as u64, image: buffer.to_vec(), ok, dest_ops_after: 0 });
                 if !ok {
@@ -292,6 +296,21 @@ pub fn check_dirsection(sc: &Scenario, d: &DirOutcome) -> Vec<Violation> {
                     writes.push((start + flushed, image[flushed..].to_vec()));
                 }
                 flushed = image.len();
+            }
+            DirOp::EntryOnly { stream_type, from_alloc } => {
+                let (size, rva) = allocs.get(*from_alloc as usize).copied().unwrap_or((0, 0));
+                let mut e = Vec::new();
+                e.extend_from_slice(&stream_type.to_le_bytes());
+                e.extend_from_slice(&size.to_le_bytes());
+                e.extend_from_slice(&rva.to_le_bytes());
+                let pos = dir_rva + 12 * idx;
+                put_at(&mut image, pos, &e);
+                idx += 1;
+                // a slot that has been flushed is updated in the destination; one that has not reaches the
+                // destination with the next flush (the destination never runs ahead of the flushed image)
+                if pos + 12 <= flushed {
+                    writes.push((start + pos, e));
+                }
             }
         }
         if step.ok {
